@@ -40,7 +40,7 @@ MANIFEST = {
     "note": "trusted: numpy arithmetic for the reference; the multiprocessing and file-write models",
     "technique": "deterministic simulation: seeded schedule search of the parallel cascade with non-atomic tile writes; differential oracle vs numpy reference model of the reduction",
 }
-BUDGET = {"quick": (700, 75), "thorough": (40000, 1500)}
+BUDGET = {"quick": (700, 75), "thorough": (90000, 1500)}
 REQUIRED_PROBES = {"quick": ["parallel_runs", "stale_parent_planted", "sparse_parent"],
                    "thorough": ["parallel_runs", "stale_parent_planted", "sparse_parent", "merged_all_undefined", "with_filter", "deep_cascade"]}
 CHUNK = 6
